@@ -2,4 +2,4 @@
 # tools/ingest_queue.sh <parallelism> "<ID k [extra checks]>" ...   -> logs under /var/tmp/ingest/
 mkdir -p /var/tmp/ingest
 P="$1"; shift
-printf '%s\n' "$@" | xargs -P "$P" -I{} sh -c 'set -- {}; python3 /verif/tools/ingest_seed.py "$@" > /var/tmp/ingest/$1_$2.log 2>&1'
+printf '%s\n' "$@" | xargs -P "$P" -I{} sh -c 'set -- {}; python3 /verif/tools/ingest_seed.py "$@" > /var/tmp/ingest/$1_${SEED_TAG}$2.log 2>&1'
